@@ -867,74 +867,93 @@ def rule_apply_diff(model):
     if len(ps) < 3:
         raise AnalysisError('apply_diff: unexpected signature')
     state_p, path_p = ps[0], ps[1]
-    # names derived from the path / from the state (flow-insensitive
-    # closure over simple assignments and loop targets)
-    path_v, state_v = {path_p}, {state_p}
-    changed = True
-    while changed:
-        changed = False
-        for n in own_nodes(fi.node):
-            tgt = val = None
-            if isinstance(n, ast.Assign) and len(n.targets) == 1:
-                tgt, val = n.targets[0], n.value
-            elif isinstance(n, ast.For):
-                tgt, val = n.target, n.iter
-            elif isinstance(n, ast.NamedExpr):
-                tgt, val = n.target, n.value
-            if tgt is None:
-                continue
-            tn = {x.id for x in ast.walk(tgt) if isinstance(x, ast.Name)
-                  and isinstance(x.ctx, ast.Store)}
-            vn = _names(val)
-            for src, dst in ((path_v, path_v), (state_v, state_v)):
-                if vn & src and not tn <= dst:
-                    # index variables of range(len(x)) are positions
-                    if isinstance(val, ast.Call) and \
-                            norm(val.func) in ('range', 'len', 'enumerate') \
-                            and dst is path_v:
-                        if norm(val.func) == 'enumerate' and \
-                                isinstance(tgt, ast.Tuple) and \
-                                len(tgt.elts) == 2 and \
-                                isinstance(tgt.elts[1], ast.Name):
-                            if tgt.elts[1].id not in dst:
-                                dst.add(tgt.elts[1].id)
-                                changed = True
-                        continue
-                    if isinstance(val, ast.Call) and \
-                            norm(val.func) in ('range', 'len') :
-                        continue
-                    dst |= tn
-                    changed = True
-    path_only = path_v - state_v
-    r.instance(fi.where, f'path-derived names {sorted(path_v)}; '
-               f'state-derived names {sorted(state_v)}')
-    ncmp = 0
-    for n in own_nodes(fi.node):
-        if isinstance(n, ast.Compare) and len(n.ops) == 1 and \
-                isinstance(n.ops[0], (ast.Eq, ast.NotEq, ast.Is, ast.IsNot)):
-            l, rt = n.left, n.comparators[0]
-            ln, rn = _names(l), _names(rt)
-            if not (ln | rn) & path_v:
-                continue
 
-            def is_len(e):
-                return isinstance(e, ast.Call) and norm(e.func) == 'len' or \
-                    isinstance(e, ast.Constant) or (
-                        isinstance(e, ast.BinOp) and
-                        any(isinstance(c, ast.Call) and norm(c.func) == 'len'
-                            for c in ast.walk(e)))
-            if is_len(l) or is_len(rt):
-                continue        # positional / length tests
-            ncmp += 1
-            both_path = ln and rn and ln <= path_only and rn <= path_only
-            r.instance(fi.where, n, 'path id vs path id' if both_path
-                       else 'path id vs state id')
-            if both_path:
-                r.finding(fi.where, n, 'two elements of the clicked path are '
-                          'compared with each other: when an id repeats '
-                          'along a path (a/b/a) the walk stops at the first '
-                          'occurrence and the wrong node is toggled',
-                          node=n, ctx=fi)
+    def analyse(fi, path0, state0, depth=0):
+        # names derived from the path / from the state (flow-insensitive
+        # closure over simple assignments and loop targets)
+        path_v, state_v = set(path0), set(state0)
+        changed = True
+        while changed:
+            changed = False
+            for n in own_nodes(fi.node):
+                tgt = val = None
+                if isinstance(n, ast.Assign) and len(n.targets) == 1:
+                    tgt, val = n.targets[0], n.value
+                elif isinstance(n, ast.For):
+                    tgt, val = n.target, n.iter
+                elif isinstance(n, ast.NamedExpr):
+                    tgt, val = n.target, n.value
+                if tgt is None:
+                    continue
+                tn = {x.id for x in ast.walk(tgt) if isinstance(x, ast.Name)
+                      and isinstance(x.ctx, ast.Store)}
+                vn = _names(val)
+                for src, dst in ((path_v, path_v), (state_v, state_v)):
+                    if vn & src and not tn <= dst:
+                        # index variables of range(len(x)) are positions
+                        if isinstance(val, ast.Call) and \
+                                norm(val.func) in ('range', 'len', 'enumerate') \
+                                and dst is path_v:
+                            if norm(val.func) == 'enumerate' and \
+                                    isinstance(tgt, ast.Tuple) and \
+                                    len(tgt.elts) == 2 and \
+                                    isinstance(tgt.elts[1], ast.Name):
+                                if tgt.elts[1].id not in dst:
+                                    dst.add(tgt.elts[1].id)
+                                    changed = True
+                            continue
+                        if isinstance(val, ast.Call) and \
+                                norm(val.func) in ('range', 'len') :
+                            continue
+                        dst |= tn
+                        changed = True
+        path_only = path_v - state_v
+        r.instance(fi.where, f'path-derived names {sorted(path_v)}; '
+                   f'state-derived names {sorted(state_v)}')
+        ncmp = 0
+        # comparisons inside helpers that are handed path / state values
+        for c in own_nodes(fi.node):
+            if not isinstance(c, ast.Call) or depth > 1:
+                continue
+            for t in model.resolve_callee(c.func, fi):
+                if t[0] != 'func' or t[1].module is not fi.module or \
+                        t[1] is fi or t[1].cls is not None:
+                    continue
+                hp = t[1].params()
+                p0 = {hp[i] for i, a_ in enumerate(c.args) if i < len(hp)
+                      and _names(a_) & path_v and not _names(a_) & state_v}
+                s0 = {hp[i] for i, a_ in enumerate(c.args) if i < len(hp)
+                      and _names(a_) & state_v}
+                if p0 or s0:
+                    ncmp += analyse(t[1], p0, s0, depth + 1)
+        for n in own_nodes(fi.node):
+            if isinstance(n, ast.Compare) and len(n.ops) == 1 and \
+                    isinstance(n.ops[0], (ast.Eq, ast.NotEq, ast.Is, ast.IsNot)):
+                l, rt = n.left, n.comparators[0]
+                ln, rn = _names(l), _names(rt)
+                if not (ln | rn) & path_v:
+                    continue
+
+                def is_len(e):
+                    return isinstance(e, ast.Call) and norm(e.func) == 'len' or \
+                        isinstance(e, ast.Constant) or (
+                            isinstance(e, ast.BinOp) and
+                            any(isinstance(c, ast.Call) and norm(c.func) == 'len'
+                                for c in ast.walk(e)))
+                if is_len(l) or is_len(rt):
+                    continue        # positional / length tests
+                ncmp += 1
+                both_path = ln and rn and ln <= path_only and rn <= path_only
+                r.instance(fi.where, n, 'path id vs path id' if both_path
+                           else 'path id vs state id')
+                if both_path:
+                    r.finding(fi.where, n, 'two elements of the clicked path are '
+                              'compared with each other: when an id repeats '
+                              'along a path (a/b/a) the walk stops at the first '
+                              'occurrence and the wrong node is toggled',
+                              node=n, ctx=fi)
+        return ncmp
+    ncmp = analyse(fi, {path_p}, {state_p})
     if not ncmp:
         raise AnalysisError('apply_diff: no id comparison found')
     return r
@@ -1505,7 +1524,8 @@ def rule_state_checked_first(model):
 
 RULES_PLAIN = [rule_state_checked_first, rule_mirror, rule_chunks, rule_encoder_twins, rule_cleanup_loop, rule_link_agreement, rule_path_stack, rule_apply_diff, rule_expand_all_isolation, rule_id_attr, rule_fresh_state, rule_sibling_scope]
 RULES = [_inl(r_) for r_ in RULES_PLAIN] if INLINED_VIEW else [
-    (_inl(r_) if r_ in (rule_link_agreement, rule_state_checked_first)
+    (_inl(r_) if r_ in (rule_link_agreement, rule_state_checked_first,
+                        rule_apply_diff)
      else r_) for r_ in RULES_PLAIN]
 EXPLANATION = (
     'Stage extraction of the encoder and decoder pipelines and comparison '
